@@ -76,8 +76,31 @@ impl Signature {
             features: vec![],
         }
     }
+    /// `file:line: message` — digits in the message part are normalised so that one defect
+    /// reached with different sizes keeps one signature.
     pub fn site(mut self, s: impl Into<String>) -> Self {
-        self.site = s.into();
+        let s: String = s.into();
+        self.site = match s.find(": ") {
+            Some(i) => {
+                let (head, msg) = s.split_at(i + 2);
+                let mut out = String::with_capacity(s.len());
+                out.push_str(head);
+                let mut last_digit = false;
+                for ch in msg.chars() {
+                    if ch.is_ascii_digit() {
+                        if !last_digit {
+                            out.push('#');
+                        }
+                        last_digit = true;
+                    } else {
+                        out.push(ch);
+                        last_digit = false;
+                    }
+                }
+                out
+            }
+            None => s,
+        };
         self
     }
     pub fn feat(mut self, f: impl Into<String>) -> Self {
